@@ -37,6 +37,9 @@ partial def valOf : Sexp → Option Val
   | .list [.atom "f", n, t] => do let b ← n.nat?; let x ← strArg t; pure (.float b x)
   | .list [.atom "s", s] => (strArg s).map .str
   | .list [.atom "r", s] => (strArg s).map .regexp
+  | .list [.atom "ty", t] =>
+      -- a type held by the value, as it is written: the model's own text of the type the given text denotes
+      (t.bytes?.bind fun bs => parseType (mkEnv []) (decodeUtf8 bs)).map tyExpr
   | .list (.atom "a" :: es) => (es.mapM valOf).map .arr
   | .list (.atom "h" :: es) =>
       (es.mapM fun (e : Sexp) => match e with
